@@ -267,6 +267,35 @@ def run(ctx):
                 okall = values.must_pass(rp, [inner[0]["header"]], from_block=some_succ, to_blocks={o["header"]})
         okr = okent and oko and oki and okall and ie is not None
         det = "entry keyed by the element's ip_addr=%s, drains queue=%s, visits every element=%s, every snapshot goes through the merge loop=%s" % (okent, oko, oki, okall)
+    if not okr and len(merges) == 1 and not pops:
+        # `for client in iter::from_fn(|| queue.pop()).flatten() { .. merge(&client) }`: one loop over the elements of every snapshot the queue
+        # yields until pop() returns None; the merge is on every pass and the loop is left only when that iterator is exhausted
+        mb = merges[0]
+        a = rev.call_args(mb)
+        ent, el = a[0], W.expand(a[1])
+        ie = iter_elem(W, el)
+        okent = is_call(ent, "or_insert_with_key") and is_call(ent[2][0], "entry") and values.contains(ent[2][0][2][1], lambda s: isinstance(s, tuple) and s[0] == "field" and s[2] == "ip_addr")
+        src = ie["container"] if ie else None
+        while isinstance(src, tuple) and src and src[0] == "reader":
+            src = src[1]
+        okq = False
+        if is_call(src) and callee_name(src[1]) == "flatten" and src[2]:
+            inner_ = W.expand(src[2][0])
+            while isinstance(inner_, tuple) and inner_ and inner_[0] == "reader":
+                inner_ = inner_[1]
+            if is_call(inner_) and callee_name(inner_[1]) == "from_fn" and inner_[2] and isinstance(inner_[2][0], tuple) and inner_[2][0][0] == "closure" and inner_[2][0][1] in P.fns:
+                cf = P.fns[inner_[2][0][1]]
+                cr_ = values.strip_payload(W.ev(cf.path).ret())
+                okq = is_call(cr_) and callee_name(cr_[1]) == "pop" and ("Queue" in cr_[1] or "queue" in cr_[1]) and not cf.loops()
+        lps = rp.in_loop(mb)
+        oki = False
+        if len(lps) == 1 and ie is not None and ie["what"] == "elem" and not ie["fields"]:
+            lp = lps[0]
+            exits = [e_ for e_ in lp["exits"] if e_[1] not in rp.diverging()]
+            nb = ie["site"][1]
+            oki = len(exits) == 1 and exits[0][0] == rp.blocks[nb].term.get("tgt") and all(rp.dominates(mb, s0) for s0, d0 in lp["backedges"])
+        okr = okent and okq and oki
+        det = "flattened queue iterator: entry keyed by the element's ip_addr=%s, iterator = from_fn(|| queue.pop()).flatten()=%s, merge on every pass and loop left only on exhaustion=%s" % (okent, okq, oki)
     ctx.check("merge", "receive_client_stats/merges-every-element-of-every-snapshot", okr, "every element of every popped snapshot is merged into its address's entry until the queue is empty",
               "receive_client_stats: " + det, ctx.loc(rp))
 
